@@ -11,3 +11,8 @@ import HmcVerif.Real.Reflect
 import HmcVerif.Real.Volume
 import HmcVerif.Props.C01
 import HmcVerif.Audit.C01
+import HmcVerif.Model.Metropolis
+import HmcVerif.Exec.C02
+import HmcVerif.Real.Ext
+import HmcVerif.Props.C02
+import HmcVerif.Audit.C02
